@@ -263,7 +263,12 @@ def bu2_validation(ctx, rep, only=None):
                 rep.check(okk and not causes, R, "store-built-only-when-valid:%s" % what, ctx.where(b, ctor[0].bb), "path [%s] builds the store with the %s condition checked" % (p.describe(), what),
                           "path [%s] builds a store although the %s condition was not excluded (%s)" % (p.describe(), what, v))
             rt = p.ret
-            rep.check(rt == ctor[0].result, R, "returns-constructor-result", ctx.where(b, ctor[0].bb), "returns what the constructor returns", "returns %s" % term_str(rt)) if not only else None
+            cres = ctor[0].result
+            # `let s = ctor(..)?; Ok(s)`: the same variant rebuilt around the same payload
+            if rt[0] == "agg" and len(rt[2]) == 1 and rt[2][0][0] == "vfield" and rt[2][0][1] == cres and str(rt[2][0][3]) == "0" \
+                    and rt[1].endswith("Result::" + str(rt[2][0][2])):
+                rt = cres
+            rep.check(rt == cres, R, "returns-constructor-result", ctx.where(b, ctor[0].bb), "returns what the constructor returns", "returns %s" % term_str(rt)) if not only else None
         else:
             n_err += 1
             rt = p.ret
